@@ -77,20 +77,20 @@ def parseNets : List (Option Prefix) → Option (List Prefix)
   | none :: _ => none
   | some p :: t => (parseNets t).map (p :: ·)
 
+/-- "0 means default" of `Build`. -/
+def dflt (v d : Nat) : Nat := if v = 0 then d else v
+
 /-- `ecs.Build`; a `none` network is an entry `netip.ParsePrefix` rejected. -/
 def build (enabled : Bool) (f4 f6 m4 m6 : Nat) (nets : List (Option Prefix)) : BuildRes :=
   if !enabled then .disabled else
-  let f4 := if f4 = 0 then 24 else f4
-  if f4 > 32 then .invalid "forward_v4" else
-  let f6 := if f6 = 0 then 56 else f6
-  if f6 > 128 then .invalid "forward_v6" else
-  let m4 := if m4 = 0 then f4 else m4
-  if m4 > 32 then .invalid "min_scope_v4" else
-  let m6 := if m6 = 0 then f6 else m6
-  if m6 > 128 then .invalid "min_scope_v6" else
+  if dflt f4 24 > 32 then .invalid "forward_v4" else
+  if dflt f6 56 > 128 then .invalid "forward_v6" else
+  if dflt m4 (dflt f4 24) > 32 then .invalid "min_scope_v4" else
+  if dflt m6 (dflt f6 56) > 128 then .invalid "min_scope_v6" else
   match parseNets nets with
   | none => .invalid "client_networks"
-  | some ns => .ok { enabled := true, fwd4 := f4, fwd6 := f6, nets := ns, min4 := m4, min6 := m6 }
+  | some ns => .ok { enabled := true, fwd4 := dflt f4 24, fwd6 := dflt f6 56, nets := ns,
+                     min4 := dflt m4 (dflt f4 24), min6 := dflt m6 (dflt f6 56) }
 
 /-- `edns.buildECSPolicy` / `cache.buildCacheECSPolicy`: error ⇒ nil policy. -/
 def BuildRes.policy : BuildRes → Option Policy
